@@ -354,7 +354,7 @@ func vfNewC05Env() (e *vfC05Env, err error) {
 			}
 			for _, id := range ids {
 				ip, _ := netip.ParseAddr(id)
-			if p, found := storage.FindLoose(ip, id); found {
+				if p, found := storage.FindLoose(ip, id); found {
 					return !p.IgnoreStatistics
 				}
 			}
